@@ -3,7 +3,9 @@
 package rest
 
 // C17 system-level binding: real push and pull replications between two RestTesters; every checkpointer event
-// (hook H6, emitted under Checkpointer.lock) is recorded and later validated against specs/Checkpointer.
+// (hook H6, emitted under Checkpointer.lock) is recorded and later validated against specs/Checkpointer; with hook H6b
+// the push-path events (Offered / Answer / PushBind) are recorded too and the free-running push traces are validated
+// against specs/Checkpointer/Trace_PushProtocol as well.
 
 import (
 	"fmt"
@@ -19,7 +21,8 @@ func TestVerif_C17_System(t *testing.T) {
 	tw := vOpenTrace(t, "VERIF_TRACE_OUT")
 	defer tw.Close()
 	base.VerifSetSink(func(ev map[string]any) {
-		if obj, _ := ev["obj"].(string); strings.HasPrefix(obj, "*db.Checkpointer") {
+		// checkpointer events (H6) and, where hook H6b is present, the push-path protocol events around them
+		if obj, _ := ev["obj"].(string); strings.HasPrefix(obj, "*db.Checkpointer") || strings.HasPrefix(obj, "*db.BlipSyncContext") {
 			tw.Emit(ev)
 		}
 	})
